@@ -151,6 +151,13 @@ def _special(_):
                 continue  # int('2 ') is 2: integer-like
             expect_refused("non-integer %s=%r" % (k, bad), dict(good, **{k: bad}))
             expect_refused("non-integer %s=%r (new path)" % (k, bad), dict(good, **{k: bad}), False)
+    # values of another TYPE that are not the creation value: True is the integer 1, not 'whatever is there'
+    for k in ("store_depth", "store_width"):
+        for bad in (True, 1.0, b"1", 1 + 0j):
+            expect_refused("%s=%r (%s) for a store created with another value" % (k, bad, type(bad).__name__), dict(good, **{k: bad}))
+    for k in ("store_algorithm", "store_metadata_namespace"):
+        for bad in (True, 1, ["SHA-256"], b"SHA-256"):
+            expect_refused("%s=%r (%s)" % (k, bad, type(bad).__name__), dict(good, **{k: bad}))
     for sub in ("objects", "metadata", "refs"):
         def prep(path, sub=sub):
             os.remove(os.path.join(path, "hashstore.yaml"))
